@@ -86,7 +86,7 @@ def handleRD (j : Json) : Except String Json := do
     let r := rdWith (if variant == "pinned" then .pinned else .r1) I
     let G := mkGraph I.rawEdges
     pure (Json.mkObj [("visits", jList jInt r.visits), ("in", jTable I.stmts r.ins),
-      ("out", jTable I.stmts r.outs), ("skips", jNat r.skips), ("skip_stmts", jList jInt r.skipStmts), ("finished", Json.bool r.finished),
+      ("out", jTable I.stmts r.outs), ("skips", jNat r.skips), ("skip_stmts", jList jInt r.skipStmts), ("in_trace", jList jDefs r.inTrace), ("finished", Json.bool r.finished),
       ("prio", jList (fun p => Json.arr #[jInt p.1, jNat p.2]) G.prio)])
   | "ideal" =>
     let r := ideal I
